@@ -14,6 +14,7 @@ import CbiVerif.Drv.Eval
 import CbiVerif.Drv.CodeBase
 import CbiVerif.Drv.Order
 import CbiVerif.Drv.Fortran
+import CbiVerif.Drv.C03
 /-! Native JSON-lines driver: one request object per line, one reply per line.
 Each area registers its ops in `CbiVerif/Drv/<Area>.lean`. -/
 open Lean
@@ -33,7 +34,8 @@ def handlerTable : List (String × (Json → Json)) :=
   CbiVerif.Drv.Eval.handlers ++
   CbiVerif.Drv.CodeBase.handlers ++
   CbiVerif.Drv.Order.handlers ++
-  CbiVerif.Drv.Fortran.handlers
+  CbiVerif.Drv.Fortran.handlers ++
+  CbiVerif.Drv.C03.handlers
 
 def handle (j : Json) : Json :=
   match j.getObjValAs? String "op" with
